@@ -285,6 +285,11 @@ static std::vector<Violation> case_c09(const Plan& p, CaseCtx& cx)
     const OpResult& o = rr.tasks[0][0];
     account(cx, p, rr, o.rend.faults_fired > 0);
     if (cx.st) cx.st->add("mode." + p.mode);
+    if (o.out.exc == 5)
+    {
+        vs.push_back(make_violation("C09", "exception_instead_of_result", "std::bad_variant_access escaped from the call: neither a value nor an empty optional with its message; " + op_brief(o), p));
+        return vs;
+    }
     if (o.out.exc != 0) { if (cx.st) cx.st->add("unjudged.exception"); return vs; }
     ref::RefResult r = ref_for(o, REF_CANONICAL);   // "cannot continue any valid prefix": canonical LR(1) over the term patterns is the statement
     if (r.step_limit) return vs;
@@ -556,6 +561,11 @@ static std::vector<Violation> case_c08(const Plan& p, CaseCtx& cx)
         vs.push_back(make_violation("C08", "no_progress_after_faults", "step budget exhausted: recovery did not finish; " + op_brief(o), p));
         return vs;
     }
+    if (o.out.exc == 5)
+    {
+        vs.push_back(make_violation("C08", "value_stack_out_of_step", "std::bad_variant_access escaped from the call: a reduction found a value of the wrong kind where its argument should be (values and states discarded out of step); " + op_brief(o), p));
+        return vs;
+    }
     if (o.out.exc != 0) { if (cx.st) cx.st->add("unjudged.exception"); return vs; }
     ref::RefResult r = ref_for(o);
     if (r.step_limit) return vs;
@@ -640,6 +650,11 @@ static std::vector<Violation> case_c18(const Plan& p, CaseCtx& cx)
     const OpResult& o = rr.tasks[0][0];
     account(cx, p, rr, o.rend.faults_fired > 0 || o.rec.lex_fault_fired);
     if (cx.st) cx.st->add("mode." + p.mode);
+    if (o.out.exc == 5)
+    {
+        vs.push_back(make_violation("C18", "exception_instead_of_result", "std::bad_variant_access escaped from the call; " + op_brief(o), p));
+        return vs;
+    }
     if (o.out.exc != 0) { if (cx.st) cx.st->add("unjudged.exception"); return vs; }
     ref::RefResult r = ref_for(o);
     if (r.step_limit) return vs;
